@@ -68,6 +68,9 @@ pub static INITIAL_TABLETS: std::sync::atomic::AtomicI32 = std::sync::atomic::At
 pub static SHARD_SKEW: std::sync::atomic::AtomicU16 = std::sync::atomic::AtomicU16::new(0);
 /// system-table answers: between two pages of rows an EMPTY page that still announces more pages is inserted
 pub static SYS_EMPTY_PAGES: std::sync::atomic::AtomicBool = std::sync::atomic::AtomicBool::new(false);
+/// the driver's schema-agreement probe (`SELECT schema_version FROM system.local WHERE key='local'`) goes to the scenario handler
+/// instead of being answered from the system tables (the control connection's own, wider queries are unaffected)
+pub static SCHEMA_PROBE_TO_HANDLER: std::sync::atomic::AtomicBool = std::sync::atomic::AtomicBool::new(false);
 /// index of a node that currently accepts no NEW connections (they are closed at once; established ones live on), or -1
 pub static REFUSE_NODE: std::sync::atomic::AtomicI32 = std::sync::atomic::AtomicI32::new(-1);
 
@@ -516,6 +519,7 @@ fn classify(shared: &Shared, req: &Request) -> Class {
                 return Class::Use(ks);
             }
             match system::parse_sys_query(text) {
+                Some(q) if SCHEMA_PROBE_TO_HANDLER.load(std::sync::atomic::Ordering::SeqCst) && q.table == "local" && q.cols == ["schema_version"] => Class::User,
                 Some(q) => Class::SysRows(q),
                 None => Class::User,
             }
